@@ -317,8 +317,8 @@ def finish(ctx, lock_mode=False):
     missing = sorted(n for n in locked if n not in set(proved_names))
     for n in missing:
         if not any(n.startswith(c + "/") or c == n.split("/")[0] for c, _, _ in undecided) and \
-                not any(n.split("/")[0] == v[0] for v in violations) and \
-                not any(n.split("/")[0] == f.get("check") for f in known_hits.values()):
+                not any(n.split("/")[0] == v[0] or n.startswith(v[0] + "/") for v in violations) and \
+                not any(n.split("/")[0] == f.get("check") or n.startswith(str(f.get("check")) + "/") for f in known_hits.values()):
             undecided.append((n, "-", "locked obligation was not generated on this tree"))
 
     wall = time.time() - ctx.t0
